@@ -3,7 +3,7 @@
 (under /tmp, removed afterwards) and run ./check <ID> against it (VERIF_REPO). Reports caught / MISSED.
 
 usage: tools/mutate.py C02 [name-substring] [--tier quick] [--keep]
-A mutation is (name, file, old, new[, count]) — exact string replacement, must match.
+A mutation is (name, file, old, new) or (name, [(file, old, new), ...]) — exact, unique string replacement(s).
 """
 import importlib.util
 import os
@@ -19,24 +19,24 @@ REPO = os.environ.get('VERIF_REPO', '/repo')
 
 
 def run_one(pid, m, tier):
-    name, rel, old, new = m[:4]
+    name = m[0]
+    edits = m[1] if isinstance(m[1], list) else [m[1:4]]
     d = tempfile.mkdtemp(prefix='mut-%s-' % pid, dir='/tmp')
     try:
         shutil.copytree(os.path.join(REPO, 'circuits'), os.path.join(d, 'circuits'),
                         ignore=shutil.ignore_patterns('__pycache__'))
-        p = os.path.join(d, rel)
-        src = open(p).read()
-        if src.count(old) < 1:
-            return name, 'NOMATCH', '', 0
-        cnt = m[4] if len(m) > 4 else 1
-        if cnt == 1 and src.count(old) != 1:
-            return name, 'AMBIGUOUS(%d)' % src.count(old), '', 0
-        src = src.replace(old, new) if cnt != 1 else src.replace(old, new, 1)
-        open(p, 'w').write(src)
-        # must still compile
-        r = subprocess.run([sys.executable, '-m', 'py_compile', p], capture_output=True, text=True)
-        if r.returncode:
-            return name, 'SYNTAX', r.stderr[-300:], 0
+        for rel, old, new in edits:
+            p = os.path.join(d, rel)
+            src = open(p).read()
+            if src.count(old) < 1:
+                return name, 'NOMATCH', '', 0
+            if src.count(old) != 1:
+                return name, 'AMBIGUOUS(%d)' % src.count(old), '', 0
+            open(p, 'w').write(src.replace(old, new, 1))
+            # must still compile
+            r = subprocess.run([sys.executable, '-m', 'py_compile', p], capture_output=True, text=True)
+            if r.returncode:
+                return name, 'SYNTAX', r.stderr[-300:], 0
         env = dict(os.environ, VERIF_REPO=d, VERIF_OUT=os.path.join(d, 'out'))
         env.pop('_VERIF_CHILD', None)
         t0 = time.time()
